@@ -10,3 +10,4 @@ pub assume_specification [i32::abs] (x: i32) -> (r: i32)
 
 pub assume_specification [i32::signum] (x: i32) -> (r: i32)
     ensures r == (if x > 0 { 1i32 } else if x < 0 { -1i32 } else { 0i32 });
+
